@@ -390,6 +390,14 @@ func vxStrs(a []string) []string {
 
 // vxCheckFrame compares the parsed frame (everything except rows) with the response.
 func vxCheckFrame(f frame, fr *framer, r *cqlspec.Response) error {
+	if err := vxCheckFlags(fr, r); err != nil {
+		return err
+	}
+	return vxCheckFrameKind(f, r)
+}
+
+// vxCheckFlags compares what the header flags carried (trace id, warnings, custom payload).
+func vxCheckFlags(fr *framer, r *cqlspec.Response) error {
 	if r.TraceHex != "" {
 		if hex.EncodeToString(fr.traceID) != r.TraceHex {
 			return fmt.Errorf("trace id %x, want %s", fr.traceID, r.TraceHex)
@@ -417,6 +425,11 @@ func vxCheckFrame(f frame, fr *framer, r *cqlspec.Response) error {
 	} else if len(fr.customPayload) != 0 {
 		return fmt.Errorf("custom payload %v on a response without the flag", fr.customPayload)
 	}
+	return nil
+}
+
+// vxCheckFrameKind compares the parsed frame's kind-specific content with the response.
+func vxCheckFrameKind(f frame, r *cqlspec.Response) error {
 	h := f.Header()
 	if _, isRows := f.(*resultRowsFrame); !isRows { // the rows frame does not keep a header copy
 		if h.stream != r.Stream || int(h.version.version()) != r.Version || !h.version.response() {
